@@ -704,3 +704,19 @@ def format_int(n, width=0, zero=False):
     if zero and k and (s[0] == '-' if isinstance(s, str) else cell_is(s.cells[0], '-') is True):
         return '-' + pad * (width - k) + s[1:]
     return pad * (width - k) + s
+
+
+def _int_printf(self, flags, width, prec, ty):
+    """'%.pf' % n for a symbolic int: the int converts to a double exactly (|n| < 2**53 is asserted on the path), so the text
+    is str(n) + '.' + p zeros"""
+    if ty != 'f' or set(flags) - {'0'} or (width and int(width) > 0):
+        raise OutOfSubset('int format %%%s%s%s' % (flags, width or '', ty))
+    c = ctx()
+    if not c.decide(z3.And(self.t > -2 ** 53, self.t < 2 ** 53)):
+        raise OutOfSubset('%f of an integer beyond 2**53')
+    p = int(prec) if prec is not None else 6
+    s = str_of_int(self, max_digits=17)
+    return s + ('.' + '0' * p if p else '')
+
+
+SInt._sym_printf = _int_printf
